@@ -260,3 +260,39 @@ def validate_reports(problems, records, timeout=3600, workers=8):
         return res, stats
     finally:
         shutil.rmtree(d, ignore_errors=True)
+
+
+def builder_probes(timeout=600):
+    """All (context, probe, verdict) transitions of spec/Builder.tla, and the context scripts."""
+    lines, stats = run_tlc("Builder", "Builder_probe.cfg", {}, workers=8, timeout=timeout)
+    contexts, probes, seen = None, [], set()
+    for rec in _json_lines(lines):
+        if "contexts" in rec:
+            contexts = rec["contexts"]
+        elif "verdict" in rec:
+            k = json.dumps(rec, sort_keys=True)
+            if k not in seen:
+                seen.add(k)
+                probes.append(rec)
+    if contexts is None:
+        raise TLCError("Builder did not print its contexts")
+    probes.sort(key=lambda r: json.dumps(r, sort_keys=True))
+    return contexts, probes, stats
+
+
+def builder_orders(sizes, timeout=600):
+    """All declaration orders for stage sizes [tasks, workers, constraints, indicators]."""
+    d = tempfile.mkdtemp(prefix="ord_")
+    try:
+        f = os.path.join(d, "order.json")
+        with open(f, "w") as fh:
+            json.dump(list(sizes), fh)
+        lines, stats = run_tlc("Builder", "Builder_order.cfg", {"ORDER_FILE": f}, workers=4, timeout=timeout)
+        orders = []
+        for rec in _json_lines(lines):
+            if "order" in rec and rec["order"] not in orders:
+                orders.append(rec["order"])
+        orders.sort()
+        return orders, stats
+    finally:
+        shutil.rmtree(d, ignore_errors=True)
